@@ -30,7 +30,8 @@ TRAP = {"respawn": "TDie", "mgr_busy": "TDieBusy", "arg_unpickle": "TDie", "task
         "arg_unloadable": "TBadArgs"}
 
 
-EXTRA_SIGNALS = ["SIGRT+1", "SIGRT+5", "SIGRT+12", "SIGRT+29", "SIGABRT", "SIGBUS", "SIGUSR1", "SIGUSR2", "SIGHUP",
+EXIT_STATUSES = ["exit:0", "exit:0", "exit:1", "exit:3", "exit:255"]
+EXTRA_SIGNALS = EXIT_STATUSES + ["SIGRT+1", "SIGRT+5", "SIGRT+12", "SIGRT+29", "SIGABRT", "SIGBUS", "SIGUSR1", "SIGUSR2", "SIGHUP",
                  "SIGQUIT", "SIGFPE", "SIGILL", "SIGALRM", "SIGXCPU"]
 
 
@@ -105,6 +106,22 @@ def quick_scenarios(rng):
         # buffered in the queue feeder thread: terminate_broken / shutdown must not block on that thread
         sc("mid_task", "SIGKILL", 2, [0], n_tasks=6, sleep=0.6, big=2000000),
         sc("mid_task", "SIGTERM", 3, [1], managed=True, n_tasks=9, sleep=0.6, big=1000000),
+        # the exit STATUS as a dimension of the fault: os._exit(k), k = 0 included (a worker that exits with status 0
+        # while a task is pending is as dead as a killed one), at every kill instant
+        sc("mid_task", "exit:0", 2, [1]),
+        sc("task_start", "exit:0", 3, [0], managed=True),
+        sc("arg_unpickle", "exit:0", 2, [2]),
+        sc("result_pickle", "exit:0", 3, [1], managed=True),
+        sc("after_send", "exit:0", 2, [0], sleep=0.2),
+        sc("mgr_busy", "exit:0", 2, [1]),
+        sc("idle_settled", "exit:0", 3, [0]),
+        sc("idle_settled", "exit:0", 2, [0, 1], managed=True),
+        sc("startup_gen", "exit:0", 2, [0], managed=True),
+        sc("startup_reduce", "exit:0", 3, [1]),
+        sc("submit_window", "exit:0", 2, [0]),
+        sc("mid_task", "exit:255", 3, [2], managed=True),
+        sc("idle_settled", "exit:1", 2, [1]),
+        sc("respawn", "exit:0", 2, [0], n_tasks1=1),
         sc("respawn", "SIGKILL", 2, [0], n_tasks1=1),
         sc("respawn", "exit", 3, [0], managed=True, n_tasks1=1),
         sc("respawn", "SIGKILL", 2, [1]),
@@ -125,7 +142,7 @@ def random_scenarios(rng, n, allow_midsend=False):
             victims = sorted(rng.sample(range(n_jobs), rng.randint(1, n_jobs)))
             how = rng.choice(["SIGKILL", "SIGSEGV", "SIGTERM"] + EXTRA_SIGNALS)
         elif kind == "after_send":
-            victims, how = [0], "SIGKILL"
+            victims, how = [0], rng.choice(["SIGKILL", "exit:0", "exit:3"])
         elif kind == "respawn":
             victims, how = [0], rng.choice(["SIGKILL", "SIGSEGV", "exit"] + EXTRA_SIGNALS)
         elif kind == "mgr_busy":
